@@ -120,12 +120,13 @@ CLAIMS = {
             "Packable impl sizes through pack_sz each concrete component it writes through pack (a Tag::pack_sz that sizes the tag itself is "
             "tabulated over all valid field numbers against the varint length).  Does "
             "not decide round-trip equality or integer-overflow panics.", "§4 C15, §9.1"),
-    "C16": ("TABLE reading of to/from_discriminant (inverse bijection < 16), const evaluation of tuple_key2 tag ranges, exhaustive evaluation over u8 of the descending byte map read from MIR, explicit-panic audit + implicit-bounds audit with an inductive offset <= len type invariant over REACH(decoders)",
+    "C16": ("TABLE reading of to/from_discriminant (inverse bijection < 16), const evaluation of tuple_key2 tag ranges, exhaustive evaluation over u8 of the descending byte map read from MIR, exact piecewise-translation tabulation of the sign-offset mapping (order isomorphism, decode inverts encode), explicit-panic audit + implicit-bounds audit with an inductive offset <= len type invariant over REACH(decoders)",
             "Claims only: the decoders of both formats reach no explicit panic construct and index their buffers in range (parser "
             "offsets never exceed the buffer, proved write by write); the type/direction code tables are "
             "inverse, four-bit and total; the compact format's tag ranges are ordered, 9 wide, disjoint and contiguous; the "
             "descending byte map is an involution that keeps the continuation bit and reverses data-bit order (its prefix-order "
-            "clause fails: known finding F14).  Order preservation in general, prefix contiguity and value round-trip are NOT "
+            "clause fails: known finding F14); the sign-offset mapping of i32 / i64 is strictly increasing from signed to unsigned order on every "
+            "value and decode is its inverse (tabulated, not sampled); the compact format's width table is exact.  Order preservation in general, prefix contiguity and value round-trip are NOT "
             "decided.", "§4 C16, §10"),
     "C10": ("ORDER/MUSTPASS/SIBLINGS over builder put/del/seal, ORIGIN of index keys and final-block fields, maximum encoded sizes computed from field tables of the expanded derives vs. evaluated size constants; path-wise comparison-guard proof for divide_keys",
             "Decides builder gates and format tables: length/size/sort-order gates precede every mutation and agree between put "
